@@ -11,7 +11,8 @@ executed / up-to-date member, or by a member that failed during its execution (`
 them; `bad_deps` / `ignored_deps` hold failed / ignored dependencies only.  Lifted to all nodes as `InvN`. -/
 namespace DoitModel.Run.Dyn
 
-/-- a failing calc task that delivered nothing: only executed / up-to-date calc tasks deliver -/
+/-- on inputs where no failing calc task has returned dependency values (`NoFailDeliver`, the former scope of this
+    development) `delivOf` is the delivery of the executed / up-to-date calc tasks only -/
 theorem delivOf_noFail {inp : RunInput} [h : NoFailDeliver inp] (c : Name) (d : Den) :
     delivOf inp c d = if d.rs.good then inp.calcRes c else {} := by
   unfold delivOf; rw [h.nil c]; split <;> simp
